@@ -7,6 +7,7 @@ import (
 
 	"verifharness/ec"
 	"verifharness/ka"
+	"verifharness/rp"
 	"verifharness/vk"
 )
 
@@ -18,6 +19,7 @@ var checks = map[string]func(*vk.Run){
 	"C11": ka.RunC11,
 	"C12": ka.RunC12,
 	"C03": ka.RunC03,
+	"C01": rp.RunC01,
 }
 
 func main() {
